@@ -101,7 +101,10 @@ class RawFlow:
             return a
         out = {}
         for k in set(a) | set(b):
-            if a.get(k) == RAW or b.get(k) == RAW:
+            if k.startswith("?"):
+                if k in a and k in b and a[k] is b[k]:
+                    out[k] = a[k]
+            elif a.get(k) == RAW or b.get(k) == RAW:
                 out[k] = RAW
             elif k in a and k in b:
                 out[k] = SAFE
@@ -109,6 +112,9 @@ class RawFlow:
 
     def bind(self, target: ast.expr, state: str, env: dict) -> None:
         if isinstance(target, ast.Name):
+            # boolean locals that stand for a type test of this name are stale now
+            for k in [k for k, v in env.items() if k.startswith("?") and (k == "?" + target.id or any(isinstance(n, ast.Name) and n.id == target.id for n in ast.walk(v)))]:
+                del env[k]
             if state == RAW:
                 env[target.id] = RAW
             else:
@@ -126,6 +132,8 @@ class RawFlow:
                 if not isinstance(t, ast.Name):
                     self.check(t, env, fi)
                 self.bind(t, st, env)
+            if len(s.targets) == 1 and isinstance(s.targets[0], ast.Name) and self.narrow(env, s.value, True) != env or len(s.targets) == 1 and isinstance(s.targets[0], ast.Name) and self.narrow(env, s.value, False) != env:
+                env["?" + s.targets[0].id] = s.value  # `is_batch = isinstance(x, list)`: the local stands for the test
             return env
         if isinstance(s, ast.AnnAssign):
             if s.value is not None:
@@ -199,6 +207,8 @@ class RawFlow:
     # ------------------------------------------------------------------ narrowing
     def narrow(self, env: dict, test: ast.expr, pol: bool) -> dict:
         env = dict(env)
+        if isinstance(test, ast.Name) and "?" + test.id in env:
+            return self.narrow(env, env["?" + test.id], pol)
         if isinstance(test, ast.UnaryOp) and isinstance(test.op, ast.Not):
             return self.narrow(env, test.operand, not pol)
         if isinstance(test, ast.BoolOp):
